@@ -86,7 +86,13 @@ def _work(args):
             base = o
             continue
         for key in ("stations", "energy", "t", "peak"):
-            if json.dumps(base[key], sort_keys=True) != json.dumps(o[key], sort_keys=True):
+            same = json.dumps(base[key], sort_keys=True) == json.dumps(o[key], sort_keys=True)
+            if key == "peak" and kw != kws[0]:
+                # the peak is an aggregate over stations: a different registration order sums the same
+                # numbers in a different order (last-bit differences are not what the property is about;
+                # per-station outputs are compared exactly, identical builds bit for bit)
+                same = abs(base[key] - o[key]) <= 1e-9 * max(1.0, abs(base[key]))
+            if not same:
                 return {"owner": "C10", "field": "real:%s:%s" % (algo, key), "spec": base[key], "impl": o[key],
                         "variation": kw, "in_base": False}
     return None
